@@ -340,6 +340,10 @@ def run(fx, tier):
         v.check(bad is None, 'R-ARITH', 'write_req::operator< [%s]' % f.tu,
                 '%d (a, b) pairs over boundary serials and distances (W = %d): prioritized first, then a before b iff 0 < b - a (mod 2^W) < 2^(W-1)' % (n, W)
                 if bad is None else bad, key='C06:R-ARITH:write_req-order', where=f.file)
+    # the limit that selects the order-preserving path is read from mqtt_ctx::ca_props: it must be THIS connection's CONNACK (shared with C15)
+    from c15 import capability_source
+    v.rule('R-OWN', 'connack_property reads mqtt_ctx::ca_props, stored only by connect_op::on_connack, unconditionally, before the connect can complete or continue')
+    capability_source(fx, v, 'C06')
     v.expect_min('R-ARITH', 1, 'ordering relation')
     v.expect_min('R-FLOW', 60, 'send sites on paths')
     v.expect_min('R-DOM', 12, 'sort/order/requeue × TUs')
